@@ -1048,6 +1048,19 @@ pub(crate) mod alloc {
             - BlsScalar::one())
             * domain.size_inv;
 
+        // At a domain element the barycentric formula degenerates to `0 / 0`:
+        // the interpolant takes the tabulated value there.
+        if numerator == BlsScalar::zero() {
+            let mut omega_i = BlsScalar::one();
+            for evaluation in evaluations.iter().take(domain.size()) {
+                if omega_i == *point {
+                    return *evaluation;
+                }
+                omega_i *= domain.group_gen;
+            }
+            return BlsScalar::zero();
+        }
+
         // Indices with non-zero evaluations
         #[cfg(not(feature = "std"))]
         let range = (0..evaluations.len()).into_iter();
